@@ -1013,8 +1013,70 @@ func c08Run(r *Run) {
 		// source parameter must not be the bare class statement (whose GetMethod does not inherit)
 		p0 := fd.Type.Params.List[0]
 		t := info.TypeOf(p0.Type)
+		// … and, when the parameter is an interface both kinds satisfy, no caller hands the class statement in
+		// (followed through wrappers that forward their own parameter)
+		var stmtArg token.Pos
+		if !isNamed(t, modPath+"/data", "ClassStmt") {
+			var classStmtIface *types.Interface
+			if tn, ok := dpkg.Types.Scope().Lookup("ClassStmt").(*types.TypeName); ok {
+				classStmtIface, _ = tn.Type().Underlying().(*types.Interface)
+			}
+			isStmt := func(at types.Type) bool {
+				if at == nil || classStmtIface == nil {
+					return false
+				}
+				if isNamed(at, modPath+"/data", "ClassStmt") {
+					return true
+				}
+				if _, isIface := at.Underlying().(*types.Interface); isIface {
+					return false
+				}
+				return types.Implements(at, classStmtIface)
+			}
+			seenFn := map[*ast.FuncDecl]bool{}
+			var check func(callee *ast.FuncDecl, idx int, depth int)
+			check = func(callee *ast.FuncDecl, idx int, depth int) {
+				if seenFn[callee] || depth > 3 {
+					return
+				}
+				seenFn[callee] = true
+				cobj := info.Defs[callee.Name]
+				for _, g := range funcDecls(npkg) {
+					if g.Body == nil {
+						continue
+					}
+					ast.Inspect(g.Body, func(n ast.Node) bool {
+						c, ok := n.(*ast.CallExpr)
+						if !ok || calleeOf(info, c) != cobj || idx >= len(c.Args) {
+							return true
+						}
+						a := ast.Unparen(c.Args[idx])
+						// forwarded parameter of the caller: judged at the caller's own call sites
+						if id, ok := a.(*ast.Ident); ok {
+							k := 0
+							for _, f := range g.Type.Params.List {
+								for _, nm := range f.Names {
+									if info.Defs[nm] == info.Uses[id] {
+										check(g, k, depth+1)
+										return true
+									}
+									k++
+								}
+							}
+						}
+						if isStmt(info.TypeOf(a)) && stmtArg == token.NoPos {
+							stmtArg = c.Pos()
+						}
+						return true
+					})
+				}
+			}
+			check(fd, 0, 0)
+		}
 		if isNamed(t, modPath+"/data", "ClassStmt") {
 			r.bad(fk+"#inheriting-lookup", fd.Pos(), "methods are looked up on the object's class statement, whose GetMethod reads its own table only: a method inherited from a parent does not count")
+		} else if stmtArg != token.NoPos {
+			r.bad(fk+"#inheriting-lookup", stmtArg, "a caller hands the structural test the object's class statement (its GetMethod reads its own table only) where the inheriting provider is meant: a method inherited from a parent does not count")
 		} else {
 			r.ok(fk+"#inheriting-lookup", fd.Pos(), "methods are looked up through a provider that includes inherited ones")
 		}
